@@ -10,11 +10,13 @@ import (
 	"flag"
 	"fmt"
 	"go/ast"
+	"go/parser"
 	"go/printer"
 	"go/token"
 	"go/types"
 	"os"
 	"path/filepath"
+	"regexp"
 	"sort"
 	"strconv"
 	"strings"
@@ -83,6 +85,18 @@ func main() {
 			pkgPaths = append(pkgPaths, modPath+"/"+p)
 		}
 	}
+	// hook constructors of package knx: derived from the exported constructors of the tree under
+	// check (so that a change to a constructor is seen through the injected-socket harnesses);
+	// the hand-written copy under hooks/ is the fall-back when the derived file does not compile
+	ctorPath := filepath.Join(*repo, "knx", "zz_verif_ctor.go")
+	staticCtor := loadOverlay[ctorPath]
+	if derived, err := deriveCtors(*repo); err == nil {
+		loadOverlay[ctorPath] = derived
+		os.WriteFile(filepath.Join(*out, "derived_ctor.go.txt"), derived, 0o644)
+		fmt.Println("mcgen: hook constructors derived from knx.NewTunnel / NewGroupTunnel / NewRouter / NewGroupRouter")
+	} else {
+		fmt.Printf("mcgen: hook constructors NOT derived (%v): using the hand-written copy\n", err)
+	}
 	cfg := &packages.Config{
 		Mode:    packages.NeedName | packages.NeedFiles | packages.NeedSyntax | packages.NeedTypes | packages.NeedTypesInfo | packages.NeedImports | packages.NeedDeps | packages.NeedCompiledGoFiles,
 		Dir:     *repo,
@@ -92,6 +106,22 @@ func main() {
 	pkgs, err := packages.Load(cfg, pkgPaths...)
 	if err != nil {
 		die("load: %v", err)
+	}
+	ctorBroken := false
+	for _, p := range pkgs {
+		for _, e := range p.Errors {
+			if strings.Contains(e.Pos, "zz_verif_ctor.go") {
+				ctorBroken = true
+				fmt.Printf("mcgen: derived constructors: %v\n", e)
+			}
+		}
+	}
+	if ctorBroken && staticCtor != nil {
+		fmt.Println("mcgen: the derived hook constructors do not type-check; falling back to the hand-written copy")
+		loadOverlay[ctorPath] = staticCtor
+		if pkgs, err = packages.Load(cfg, pkgPaths...); err != nil {
+			die("load: %v", err)
+		}
 	}
 	for _, p := range pkgs {
 		for _, e := range p.Errors {
@@ -353,6 +383,155 @@ func (r *rewriter) instrumentPass() {
 		c.Replace(repl)
 		return true
 	})
+}
+
+// ---------------------------------------------------------------------------------------------
+// hook constructors derived from the tree
+
+// deriveCtors builds New{Tunnel,GroupTunnel,Router,GroupRouter}OnSocket from the bodies of the
+// exported constructors: the first parameter becomes the injected socket, the statements that dial
+// or listen (and the error check that follows them) are dropped, calls of NewTunnel / NewRouter
+// become calls of their OnSocket twins.
+func deriveCtors(repo string) ([]byte, error) {
+	fset := token.NewFileSet()
+	want := map[string]string{"NewTunnel": "NewTunnelOnSocket", "NewGroupTunnel": "NewGroupTunnelOnSocket", "NewRouter": "NewRouterOnSocket", "NewGroupRouter": "NewGroupRouterOnSocket"}
+	var decls []*ast.FuncDecl
+	imports := map[string]string{} // name -> path
+	for _, name := range []string{"tunnel.go", "router.go", "groups.go"} {
+		f, err := parser.ParseFile(fset, filepath.Join(repo, "knx", name), nil, 0)
+		if err != nil {
+			return nil, err
+		}
+		for _, imp := range f.Imports {
+			path, _ := strconv.Unquote(imp.Path.Value)
+			n := path[strings.LastIndex(path, "/")+1:]
+			if imp.Name != nil {
+				n = imp.Name.Name
+			}
+			imports[n] = path
+		}
+		for _, d := range f.Decls {
+			if fd, ok := d.(*ast.FuncDecl); ok && fd.Recv == nil && want[fd.Name.Name] != "" {
+				decls = append(decls, fd)
+			}
+		}
+	}
+	if len(decls) != 4 {
+		return nil, fmt.Errorf("found %d of the 4 exported constructors", len(decls))
+	}
+	isDial := func(n ast.Node) bool {
+		found := false
+		ast.Inspect(n, func(m ast.Node) bool {
+			if c, ok := m.(*ast.CallExpr); ok {
+				if sel, ok := c.Fun.(*ast.SelectorExpr); ok {
+					if x, ok := sel.X.(*ast.Ident); ok && x.Name == "knxnet" && (strings.HasPrefix(sel.Sel.Name, "Dial") || strings.HasPrefix(sel.Sel.Name, "Listen")) {
+						found = true
+					}
+				}
+			}
+			return !found
+		})
+		return found
+	}
+	declaresSock := func(st ast.Stmt) bool {
+		ds, ok := st.(*ast.DeclStmt)
+		if !ok {
+			return false
+		}
+		gd, ok := ds.Decl.(*ast.GenDecl)
+		if !ok {
+			return false
+		}
+		for _, sp := range gd.Specs {
+			if vs, ok := sp.(*ast.ValueSpec); ok && len(vs.Names) == 1 && vs.Names[0].Name == "sock" {
+				return true
+			}
+		}
+		return false
+	}
+	isErrCheck := func(st ast.Stmt) bool {
+		is, ok := st.(*ast.IfStmt)
+		if !ok || is.Init != nil || is.Else != nil {
+			return false
+		}
+		be, ok := is.Cond.(*ast.BinaryExpr)
+		if !ok || be.Op != token.NEQ {
+			return false
+		}
+		x, ok := be.X.(*ast.Ident)
+		if !ok || x.Name != "err" || len(is.Body.List) != 1 {
+			return false
+		}
+		_, ok = is.Body.List[0].(*ast.ReturnStmt)
+		return ok
+	}
+	var out bytes.Buffer
+	var body bytes.Buffer
+	for _, fd := range decls {
+		ps := fd.Type.Params.List
+		if len(ps) == 0 || len(ps[0].Names) != 1 {
+			return nil, fmt.Errorf("%s: unexpected parameter list", fd.Name.Name)
+		}
+		addrName := ps[0].Names[0].Name
+		ps[0] = &ast.Field{Names: []*ast.Ident{ast.NewIdent("sock")}, Type: &ast.SelectorExpr{X: ast.NewIdent("knxnet"), Sel: ast.NewIdent("Socket")}}
+		fd.Name = ast.NewIdent(want[fd.Name.Name])
+		fd.Doc = nil
+		dialed := false
+		var list []ast.Stmt
+		// the address stays available to log lines and the like
+		list = append(list, &ast.AssignStmt{Lhs: []ast.Expr{ast.NewIdent(addrName)}, Tok: token.DEFINE, Rhs: []ast.Expr{strLit("injected-socket")}},
+			&ast.AssignStmt{Lhs: []ast.Expr{ast.NewIdent("_")}, Tok: token.ASSIGN, Rhs: []ast.Expr{ast.NewIdent(addrName)}})
+		for i := 0; i < len(fd.Body.List); i++ {
+			st := fd.Body.List[i]
+			if declaresSock(st) {
+				continue
+			}
+			if isDial(st) {
+				dialed = true
+				if i+1 < len(fd.Body.List) && isErrCheck(fd.Body.List[i+1]) {
+					i++
+				}
+				continue
+			}
+			list = append(list, st)
+		}
+		fd.Body.List = list
+		twin := false
+		ast.Inspect(fd.Body, func(n ast.Node) bool {
+			if c, ok := n.(*ast.CallExpr); ok {
+				if id, ok := c.Fun.(*ast.Ident); ok && (id.Name == "NewTunnel" || id.Name == "NewRouter") && len(c.Args) > 0 {
+					id.Name += "OnSocket"
+					c.Args[0] = ast.NewIdent("sock")
+					twin = true
+				}
+			}
+			return true
+		})
+		if !dialed && !twin {
+			return nil, fmt.Errorf("%s: neither a dial/listen statement nor a call of NewTunnel/NewRouter found", fd.Name.Name)
+		}
+		if err := printer.Fprint(&body, fset, fd); err != nil {
+			return nil, err
+		}
+		body.WriteString("\n\n")
+	}
+	body.WriteString("// ServeGroupInboundForTest exposes the group layer on an arbitrary source channel.\nfunc ServeGroupInboundForTest(inbound <-chan cemi.Message, outbound chan<- GroupEvent) {\n\tserveGroupInbound(inbound, outbound)\n}\n")
+	out.WriteString("// Code generated by /verif/mcgen from the exported constructors of package knx. DO NOT EDIT.\n\npackage knx\n\nimport (\n")
+	src := body.String()
+	imports["cemi"], imports["knxnet"] = modPath+"/knx/cemi", modPath+"/knx/knxnet"
+	var names []string
+	for n := range imports {
+		names = append(names, n)
+	}
+	sort.Strings(names)
+	for _, n := range names {
+		if regexp.MustCompile(`(^|[^A-Za-z0-9_.])` + regexp.QuoteMeta(n) + `\.`).MatchString(src) {
+			fmt.Fprintf(&out, "\t%s %q\n", n, imports[n])
+		}
+	}
+	out.WriteString(")\n\n")
+	out.WriteString(src)
+	return out.Bytes(), nil
 }
 
 // ---------------------------------------------------------------------------------------------
